@@ -177,6 +177,35 @@ where I: DoubleEndedIterator + ExactSizeIterator, I::Item: PartialEq + std::fmt:
     }
 }
 
+// nth_back(n) after j items were taken from the FRONT, then everything else the iterator offers: len(), size_hint(),
+// nth(0), next(), next_back() must all agree that it is exhausted (or continue correctly) and none may panic.
+fn nth_back_after_front<I>(ctx: &mut Ctx, label: &str, make: &dyn Fn() -> I, reference: &[I::Item], what: &dyn Fn() -> String)
+where I: DoubleEndedIterator + ExactSizeIterator, I::Item: PartialEq + std::fmt::Debug + Clone
+{
+    let total = reference.len();
+    for j in consumed_points(total) {
+        let rem = total - j;
+        for n in nth_cases(rem) {
+            let want: Option<I::Item> = if n < rem { Some(reference[total - 1 - n].clone()) } else { None };
+            let want_len = if n < rem { rem - n - 1 } else { 0 };
+            let want_front: Option<I::Item> = if want_len > 0 { Some(reference[j].clone()) } else { None };
+            let got = guard(|| {
+                let mut it = make();
+                for _ in 0..j { let _ = it.next(); }
+                let a = it.nth_back(n);
+                let l = it.len();
+                let h = it.size_hint();
+                let f = it.nth(0);
+                let l2 = it.len();
+                (a, l, h, f, l2)
+            });
+            let cls = if n >= 1usize << 62 { "extreme" } else if want.is_none() { "past_end" } else { "inside" };
+            ctx.expect_eq(&format!("{}.nth_back_after_front.{}", label, cls), || format!("{}: {} x next(), nth_back({}) -> (item, len, size_hint, nth(0), len) on {}", label, j, n, what()),
+                &got, &(want, want_len, (want_len, Some(want_len)), want_front, want_len.saturating_sub(1)));
+        }
+    }
+}
+
 fn nth_extremes(ctx: &mut Ctx) {
     let mut rng = Rng::new(ctx.seed ^ 0xC9_1);
     let mut insts: Vec<Vec<bool>> = vec![Vec::new(), vec![true], vec![false], vec![true; 70], vec![false; 70]];
@@ -207,6 +236,11 @@ fn nth_extremes(ctx: &mut Ctx) {
         nth_after_back(ctx, "bitvector.iter", &|| bv.iter(), bits, &what);
         nth_after_back(ctx, "sparse.one_iter", &|| sv.one_iter(), &ones, &what);
         nth_after_back(ctx, "sparse.iter", &|| sv.iter(), bits, &what);
+        nth_back_after_front(ctx, "bitvector.one_iter", &|| bv.one_iter(), &ones, &what);
+        nth_back_after_front(ctx, "bitvector.zero_iter", &|| bv.zero_iter(), &zeros, &what);
+        nth_back_after_front(ctx, "bitvector.iter", &|| bv.iter(), bits, &what);
+        nth_back_after_front(ctx, "sparse.one_iter", &|| sv.one_iter(), &ones, &what);
+        nth_back_after_front(ctx, "sparse.iter", &|| sv.iter(), bits, &what);
         nth_total(ctx, "bitvector.zero_iter", &|| bv.zero_iter(), &zeros, Some(&|it| it.len()), &what);
         nth_back_total(ctx, "bitvector.zero_iter", &|| bv.zero_iter(), &zeros, &what);
         if !ones.is_empty() {
@@ -237,10 +271,14 @@ fn nth_extremes(ctx: &mut Ctx) {
         let iv = IntVector::from(items.clone());
         nth_total(ctx, "int_vector.iter", &|| iv.iter(), &items, Some(&|it| it.len()), &what);
         nth_back_total(ctx, "int_vector.iter", &|| iv.iter(), &items, &what);
+        nth_back_after_front(ctx, "int_vector.iter", &|| iv.iter(), &items, &what);
+        nth_after_back(ctx, "int_vector.iter", &|| iv.iter(), &items, &what);
         nth_total(ctx, "int_vector.into_iter", &|| iv.clone().into_iter(), &items, Some(&|it| it.len()), &what);
         let wm = WaveletMatrix::from(items.clone());
         nth_total(ctx, "wm.iter", &|| wm.iter(), &items, Some(&|it| it.len()), &what);
         nth_back_total(ctx, "wm.iter", &|| wm.iter(), &items, &what);
+        nth_back_after_front(ctx, "wm.iter", &|| wm.iter(), &items, &what);
+        nth_after_back(ctx, "wm.iter", &|| wm.iter(), &items, &what);
         nth_total(ctx, "wm.into_iter", &|| wm.clone().into_iter(), &items, Some(&|it| it.len()), &what);
         let occ: Vec<(usize, usize)> = (0..items.len()).filter(|i| items[*i] == 3).enumerate().collect();
         nth_total(ctx, "wm.value_iter", &|| wm.value_iter(3), &occ, None, &what);
